@@ -908,7 +908,7 @@ def main(ctx):
 
         kernels.check(ctx, files={'utils/standard_atmosphere.py', 'emissions/ei/sox.py', 'emissions/utils.py',
                                   'emissions/ei/nox.py', 'emissions/ei/hcco.py', 'emissions/ei/pmnvol.py'})
-        kernels.check_sym(ctx, files={'emissions/ei/hcco.py'})
+        kernels.check_sym(ctx, files={'emissions/ei/hcco.py', 'emissions/ei/pmvol.py', 'emissions/utils.py', 'emissions/ei/pmnvol.py'})
     finally:
         try:
             from AEIC.config import Config
